@@ -6,6 +6,7 @@ package badger
 
 import (
 	"bytes"
+	"crypto/sha1"
 	"fmt"
 	"os"
 	"path/filepath"
@@ -36,6 +37,8 @@ type lsmState struct {
 	oracle  string           // which property's oracle is active: c12 c13 c14 c36 c07 all
 	created map[uint64]int64 // table id -> virtual creation time (unix nano)
 	seqno   int
+	pendC   string // violation detected inside a transition (reported by the next check)
+	pendD   string
 	normal  bool   // normal (oracle-assigned timestamps) mode
 	snaps   []*Txn // open snapshot transactions (normal mode)
 	held    []heldItem
@@ -310,6 +313,9 @@ func lsmEnabled(x *seqExec) []string {
 	}
 	if x.j.Bool("reopen", false) && len(st.snaps) == 0 && len(st.held) == 0 {
 		ops = append(ops, "R")
+		if x.j.Bool("readonly", false) {
+			ops = append(ops, "RO")
+		}
 	}
 	if x.j.Bool("closecompact", false) {
 		ops = append(ops, "CX")
@@ -514,6 +520,17 @@ func lsmApply(x *seqExec, op string) bool {
 		time.Sleep(61 * time.Minute)
 		return true
 	case 'R':
+		before := dumpString(dumpAllInternal(db))
+		if op == "RO" {
+			return st.readOnlyCycle(x, before)
+		}
+		defer func() {
+			if x.db != nil && st.pendC == "" {
+				if after := dumpString(dumpAllInternal(x.db)); after != before && !st.opts.CompactL0OnClose {
+					st.pendC, st.pendD = "reopen-changed-content", fmt.Sprintf("all-versions dump before Close: %s\n  after re-open: %s", before, after)
+				}
+			}
+		}()
 		if err := db.Close(); err != nil {
 			panic(fmt.Sprintf("close: %v", err))
 		}
@@ -536,6 +553,124 @@ func lsmApply(x *seqExec, op string) bool {
 		return true
 	}
 	panic("unknown op " + op)
+}
+
+// dumpAllInternal: every retained version of every key including internal (!badger!) keys.
+func dumpAllInternal(db *DB) map[string][]verEntry {
+	out := map[string][]verEntry{}
+	var txn *Txn
+	if db.opt.managedTxns {
+		txn = db.NewTransactionAt(^uint64(0), false)
+	} else {
+		txn = db.NewTransaction(false)
+	}
+	defer txn.Discard()
+	opt := DefaultIteratorOptions
+	opt.AllVersions, opt.InternalAccess = true, true
+	it := txn.NewIterator(opt)
+	defer it.Close()
+	for it.Rewind(); it.Valid(); it.Next() {
+		item := it.Item()
+		k := string(item.Key())
+		e := verEntry{Ver: item.Version(), Deleted: item.IsDeletedOrExpired(), UMeta: item.UserMeta(), Expires: item.ExpiresAt()}
+		if !e.Deleted {
+			v, err := item.ValueCopy(nil)
+			if err != nil {
+				e.Val = "ERR:" + err.Error()
+			} else {
+				e.Val = string(v)
+			}
+		}
+		out[k] = append(out[k], e)
+	}
+	return out
+}
+
+func hashDir(dir string) string {
+	ents, _ := os.ReadDir(dir)
+	var b strings.Builder
+	for _, e := range ents {
+		data, size, _, err := readSparse(filepath.Join(dir, e.Name()))
+		if err != nil {
+			fmt.Fprintf(&b, "%s:ERR;", e.Name())
+			continue
+		}
+		h := sha1.Sum(data)
+		fmt.Fprintf(&b, "%s:%d:%x;", e.Name(), size, h[:8])
+	}
+	return b.String()
+}
+
+// readOnlyCycle: close, open read-only, read everything, close: no file may be created, deleted
+// or modified; then re-open read-write (same content).
+func (st *lsmState) readOnlyCycle(x *seqExec, before string) bool {
+	if err := x.db.Close(); err != nil {
+		panic(err)
+	}
+	x.db = nil
+	h0 := hashDir(st.opts.Dir)
+	ro := st.opts
+	ro.ReadOnly = true
+	var db *DB
+	var err error
+	if ro.managedTxns {
+		db, err = OpenManaged(ro)
+	} else {
+		db, err = Open(ro)
+	}
+	if err != nil {
+		st.pendC, st.pendD = "readonly-open-failed", fmt.Sprintf("read-only Open after a clean Close: %v", err)
+		bubbleLeakOK = true
+	} else {
+		got := dumpString(dumpAllInternal(db))
+		_ = db.Close()
+		if got != before {
+			st.pendC, st.pendD = "readonly-content", fmt.Sprintf("read-only open shows %s, before Close %s", got, before)
+		}
+	}
+	if h1 := hashDir(st.opts.Dir); h1 != h0 && st.pendC == "" {
+		st.pendC, st.pendD = "readonly-modified-files", fmt.Sprintf("files before the read-only open: %s\n  after: %s", h0, h1)
+	}
+	if ro.managedTxns {
+		x.db, err = OpenManaged(st.opts)
+	} else {
+		x.db, err = Open(st.opts)
+	}
+	if err != nil {
+		panic(fmt.Sprintf("REOPEN FAILED: %v", err))
+	}
+	if st.discard > 0 && st.opts.managedTxns {
+		x.db.SetDiscardTs(st.discard)
+	}
+	synctest.Wait()
+	return true
+}
+
+// checkNoFiles (C37): an in-memory DB never opens a regular file for writing and leaves the
+// working directory untouched.
+func checkNoFiles(x *seqExec) (string, string) {
+	ents, _ := os.ReadDir("/proc/self/fd")
+	for _, e := range ents {
+		t, err := os.Readlink("/proc/self/fd/" + e.Name())
+		if err != nil || !strings.HasPrefix(t, "/") {
+			continue
+		}
+		if strings.HasPrefix(t, "/dev/") && !strings.HasPrefix(t, "/dev/shm/") || strings.HasPrefix(t, "/proc/") {
+			continue
+		}
+		fi, err := os.Stat(t)
+		if err != nil || !fi.Mode().IsRegular() {
+			continue
+		}
+		if strings.HasSuffix(t, ".children") || strings.HasSuffix(t, ".test") || strings.Contains(t, "/jobs/") {
+			continue // the harness's own files
+		}
+		return "inmemory-file-open", fmt.Sprintf("in-memory DB process holds an open regular file: %s", t)
+	}
+	if ents, err := os.ReadDir(x.dir); err == nil && len(ents) > 0 {
+		return "inmemory-file-created", fmt.Sprintf("scratch directory %s is not empty: %v", x.dir, ents[0].Name())
+	}
+	return "", ""
 }
 
 // applyManagedTs: C36 operations with caller-chosen timestamps: M<k><ts> set, X<k><ts> delete,
@@ -1013,6 +1148,14 @@ func lsmCheckStructure(x *seqExec) (string, string) {
 
 func lsmCheck(x *seqExec, op string) (string, string) {
 	st := x.st.(*lsmState)
+	if st.pendC != "" {
+		return st.pendC, st.pendD
+	}
+	if st.opts.InMemory && x.j.Bool("nofiles", false) {
+		if c, d := checkNoFiles(x); c != "" {
+			return c, d
+		}
+	}
 	switch st.oracle {
 	case "c12", "c36", "c07":
 		return lsmCheckReads(x)
